@@ -420,6 +420,11 @@ func (a *Analyzer) checkSlice(st *state, x *ast.SliceExpr) {
 			ln = lin.Const(arr)
 		} else {
 			ln, k3 = a.lenOf(c, x.X)
+			if !k3 {
+				// operand is not a tracked path: its length is an unknown non-negative value
+				ln, k3 = a.fresh(c, x.X, "len"), true
+				c.L.Add(lin.LE(lin.Const(0), ln))
+			}
 		}
 		if x.Low != nil {
 			lo, k1 = a.linear(c, x.Low)
